@@ -42,6 +42,7 @@ def apiGenerateHealpix (m : MapObj) (ordOut : Option Nat) (red : String) (key : 
        | some i => apiGetSingleCopy m i none)
     | .wide _ => throw .notImpl
     | _ => pure m
+  if !cellsFitF64 single.st.sp then throw .inexact
   let o := ordOut.getD m.spord
   let single ← if o < m.spord then apiDegrade single o red none
                else if o > m.spord then throw .value else pure single
@@ -66,6 +67,7 @@ def apiInterp (m : MapObj) (nbrs : List (List (Nat × (Int × Nat)))) (allowPart
   | .plain _ => pure ()
   | _ => throw .notImpl
   if nbrs.any (fun g => g.any fun pw => pw.1 ≥ m.npix) then throw .index
+  if !cellsFitF64 m.st.sp then throw .inexact
   pure (nbrs.map fun g =>
     let vw := g.map fun pw => (m.abs pw.1, pw.2)
     match interpContrib m.vc vw allowPartial with
